@@ -1162,6 +1162,17 @@ Section Frame.
     Mk (match m_store m with Some s => s | None => empty end) (m_store m) false.
 
   Definition fresh : Machine := Mk empty None false.
+
+  (* a committed log applied as the given sequence of batches, every Save succeeding:
+     the machine at the end and all per-entry results in log order *)
+  Fixpoint apply_parts (m : Machine) (parts : list (list (N * N * C))) : Machine * list Result :=
+    match parts with
+    | [] => (m, [])
+    | p :: rest =>
+      let '(m', out) := ApplyBatch m 0 p in
+      let '(m'', rs) := apply_parts m' rest in
+      (m'', bo_results out ++ rs)
+    end.
 End Frame.
 
 Arguments Machine : clear implicits.
